@@ -9,8 +9,10 @@ use vek::mat::repr_c::row_major as rm;
 use vek::mat::repr_c::column_major as cm;
 
 /// Display output: element order (symbols print as n<id>) and the separator skeleton
-fn display_sym<M: std::fmt::Display>(m: &M) -> Out<Sym> {
-    let s = format!("{}", m);
+fn display_sym<M: std::fmt::Display>(m: &M) -> Out<Sym> { display_str(format!("{}", m)) }
+/// the same with formatting parameters, which the matrix must hand down to every element
+fn display_sym_fmt<M: std::fmt::Display>(m: &M) -> Out<Sym> { display_str(format!("{:+9.2}", m)) }
+fn display_str(s: String) -> Out<Sym> {
     let mut vals = vec![]; let mut skel = String::new(); let mut i = 0; let b = s.as_bytes();
     while i < b.len() {
         if b[i] == b'n' && i + 1 < b.len() && b[i + 1].is_ascii_digit() {
@@ -55,6 +57,7 @@ macro_rules! mat { ($reg:expr, $n:expr, $l:expr, $M:ident, $modl:ident, $tr:iden
     ep!($reg, format!("{}_default", p), 0, |a| { let _ = a; Out::of(<MT<T> as Default>::default().flat()) });
     ep!($reg, format!("{}_counts", p), nn, |a| { let m: MT<T> = Flat::rd(a); Out { flags: vec![m.row_count() as i64, m.col_count() as i64, MT::<T>::ROW_COUNT as i64, MT::<T>::COL_COUNT as i64, m.gl_should_transpose() as i64, MT::<T>::GL_SHOULD_TRANSPOSE as i64], vals: vec![] } });
     $reg.add(&format!("{}_display", p), nn, Box::new(move |a: &[Sym]| { let m: MT<Sym> = Flat::rd(a); display_sym(&m) }), None);
+    $reg.add(&format!("{}_display_fmt", p), nn, Box::new(move |a: &[Sym]| { let m: MT<Sym> = Flat::rd(a); display_sym_fmt(&m) }), None);
     let _ = display_f64::<MT<f64>>;
 }}; }
 
